@@ -7,6 +7,9 @@ import (
 )
 
 var props = map[string]*kernel.Prop{
+	"C01": {ID: "C01", Engine: "streamsim", RunOne: runC01},
+	"C04": {ID: "C04", Engine: "streamsim", RunOne: runC04},
+	"C11": {ID: "C11", Engine: "streamsim", RunOne: runC11},
 	"C18": {ID: "C18", Engine: "streamsim", RunOne: runC18, PinBase: []string{"faults"}, Expand: expandC18},
 }
 
